@@ -58,7 +58,13 @@ impl RunStats {
             *self.known_findings.entry(k.clone()).or_insert(0) += v;
         }
         for (k, v) in &o.counters {
-            *self.counters.entry(k.clone()).or_insert(0) += v;
+            let e = self.counters.entry(k.clone()).or_insert(0);
+            // counters named "...max_..." are maxima, everything else is a sum
+            if k.contains(".max_") {
+                *e = (*e).max(*v);
+            } else {
+                *e += v;
+            }
         }
         self.tuples.extend(o.tuples.iter().cloned());
         // cap memory/IO: beyond the cap the distinct-state count becomes a lower bound
